@@ -2,6 +2,7 @@
 From Coq Require Import List NArith Arith.
 Import ListNotations.
 Require Tag DemTargets.
+Require IntRead Gen_IntRead GenProofs_IntRead.
 Require Import Dec DemFlat.
 
 (* flattening with a running detector offset threaded through nested repeat blocks (flattened_helper /
@@ -35,3 +36,15 @@ Example C08_nonvacuous :
   fst (flat m 0) = [OErr 1 [TD 0; TL 1]; OErr 2 [TD 3]; ODet [TD 5]; ODet [TD 5]; OErr 2 [TD 4]; ODet [TD 6]; ODet [TD 6]]
   /\ snd (flat m 0) = 5%N.
 Proof. vm_compute. split; reflexivity. Qed.
+
+(* the parsers' decimal readers, regenerated from source (accumulator width, limit, loop shape): no value wraps around modulo the
+   machine word before the limit test, so each reader is the unbounded loop of the parser model (limits 2^24, 2^60, 2^63). The
+   post-check shape with limit 2^63 in 64 bits would accept 2^64+1 as 1 (IntRead.post_check_u63_refuted). *)
+Theorem C08_decimal_readers_do_not_wrap : GenProofs_IntRead.intread_all_ok = true.
+Proof. exact GenProofs_IntRead.decimal_readers_do_not_wrap. Qed.
+Theorem C08_generated_reader_is_unbounded_loop :
+  GenProofs_IntRead.intread_all_ok = true ->
+  forall n w k pre, In (n, w, k, pre) Gen_IntRead.int_readers ->
+  forall s, (if pre then IntRead.pre_loop w (2 ^ k) s 0 else IntRead.post_loop w (2 ^ k) s 0)%N = DemTargets.read_lim_loop (2 ^ k)%N s 0%N.
+Proof. exact GenProofs_IntRead.generated_reader_is_unbounded_loop. Qed.
+Print Assumptions C08_decimal_readers_do_not_wrap. Print Assumptions C08_generated_reader_is_unbounded_loop.
